@@ -153,7 +153,7 @@ class HostModel:
                 else:
                     spec[path[0]] = jcopy(op['value'])
             else:
-                if path[0] not in SECTIONS:
+                if path[0] not in SECTIONS and path[0] != 'context':
                     raise InvalidHistory('bad edit path')
                 sec = spec.get(path[0])
                 if sec is None:
